@@ -19,7 +19,7 @@ func init() {
 		Rule: "reference-multiplexed streams (2..4 PIDs, PES bounded/unbounded salted with start codes, PAT/PMT, SI) under packet-level fault plans: every single-packet duplication (directly after the original " +
 			"and after intervening packets of other PIDs) and every single-packet deletion of every stream; random multi-fault plans (deletion bursts 1..15, duplicates, transport_error_indicator, " +
 			"discontinuity_indicator, adaptation-only insertions); all fault words of length 7 over {none,dup,delete,TEI,AF-only,DI} on a 2-PID micro stream; the output is compared with the fault-free " +
-			"output using the model's knowledge of which units each fault touched; plus units of 257..3500 packets behind and around gaps and duplicates (stage giant); distinct = hash of the faulted stream; non-trivial = at least one fault applied",
+			"output using the model's knowledge of which units each fault touched; plus units of 257..3500 packets behind and around gaps and duplicates (stage giant), duplicates with re-stamped clocks that must be invisible — everything delivered compared, first packets included — and 21 kinds of look-alikes (same counter and payload, another header / adaptation field flag or value) as a receiver sees them after 15 lost packets (stage near-dup); distinct = hash of the faulted stream; non-trivial = at least one fault applied",
 		Assumptions: []string{"loss plans satisfy the property's precondition: < 16 packets lost in a row on a PID and a later payload packet of that PID survives (plans that do not are skipped and counted)",
 			"a packet with discontinuity_indicator is treated as preceded by a gap", "errors returned by NextData are not units", "on PSI PIDs a duplicate may cause a repeated delivery equal to its neighbour"},
 		Shards: 32,
@@ -362,10 +362,19 @@ func nearDuplicateCase(c *mon.Ctx, idx int64, r *rand.Rand) {
 		}
 		d := longData(0x100, 2, 184-14+167+184+90)
 		p := append(pesHeaderPTS(0xe0, 2, len(d), false), d...)
-		s.packet(0x100, true, p[:184])
-		s.afPacket(0x100, false, false, 0, v.first, p[184:184+167], false)
-		if withRepeat {
-			s.afPacket(0x100, false, v.prio, v.tsc, v.rep, p[184:184+167], true)
+		if idx%2 == 1 {
+			// the duplicated packet is the one that starts the unit: its adaptation field is what DemuxerData.FirstPacket shows
+			s.afPacket(0x100, true, false, 0, v.first, p[:167], false)
+			if withRepeat {
+				s.afPacket(0x100, true, v.prio, v.tsc, v.rep, p[:167], true)
+			}
+			s.packet(0x100, false, p[167:167+184])
+		} else {
+			s.packet(0x100, true, p[:184])
+			s.afPacket(0x100, false, false, 0, v.first, p[184:184+167], false)
+			if withRepeat {
+				s.afPacket(0x100, false, v.prio, v.tsc, v.rep, p[184:184+167], true)
+			}
 		}
 		s.packet(0x100, false, p[351:351+184])
 		s.packet(0x100, false, p[535:])
@@ -387,7 +396,22 @@ func nearDuplicateCase(c *mon.Ctx, idx int64, r *rand.Rand) {
 	if v.dup {
 		if d := s.compare(ds); d != "" || len(errs) > 0 {
 			c.Violate("C06/dup/duplicate-with-restamped-clock-changes-output:"+v.name, "near-dup", idx, fmt.Sprintf("%s %v", d, errs), data)
+			return
 		}
+		// "identical to that of the stream without the duplicate": everything that is delivered, the first packet of every unit
+		// (header, adaptation field, clocks) included
+		clean, _, _ := drainData(build(false).b)
+		if len(clean) != len(ds) {
+			c.Violate("C06/dup/pes-output-changed-by-duplicate:"+v.name, "near-dup", idx, fmt.Sprintf("%d data with the duplicate, %d without", len(ds), len(clean)), data)
+			return
+		}
+		for k := range ds {
+			if df := mon.Diff(ds[k], clean[k], nil); df != "" {
+				c.Violate("C06/dup/pes-output-changed-by-duplicate:"+v.name, "near-dup", idx, fmt.Sprintf("datum %d with the duplicate vs without: %s", k, df), data)
+				return
+			}
+		}
+		c.Count("duplicates_compared_with_first_packet")
 		return
 	}
 	// not a duplicate: the unit it sits in may be missing, everything delivered is a unit of the stream, the others are all there
